@@ -108,9 +108,14 @@ def check_grain(g, rec=None):
                 name, np.array2string(np.asarray(got), precision=10),
                 np.array2string(np.asarray(exp), precision=10)), route=name))
 
-    ok, gr = guard(grainmod.grain, ubi)
+    # the same matrix handed over as a C-ordered array, a Fortran-ordered array, a transposed view or nested lists
+    rep = int(abs(ubi[0, 0]) * 1e6) % 4
+    ubi_in = [ubi, np.asfortranarray(ubi), ubi.T.copy().T, [list(map(float, r)) for r in ubi]][rep]
+    ok, gr = guard(grainmod.grain, ubi_in)
     if not ok:
         return [exc_failure("grain()", gr)]
+    if rep in (1, 2):
+        ubi = ubi_in          # the free functions below see the same representation
     G = ubi @ ubi.T
     angle = np.degrees(np.arccos(np.clip((np.trace(U) - 1) / 2, -1, 1)))
     routes = [
